@@ -23,6 +23,7 @@ import (
 	"sort"
 	"strings"
 
+	"github.com/Masterminds/semver/v3"
 	"github.com/NethermindEth/juno/adapters/sn2core"
 	"github.com/NethermindEth/juno/blockchain/networks"
 	"github.com/NethermindEth/juno/core"
@@ -132,6 +133,8 @@ func setPath(v any, path []any, leaf any) any {
 	}
 	return v
 }
+
+var semver011 = semver.MustParse("0.11.0")
 
 var jsonUncommittedRe = []struct {
 	re  *regexp.Regexp
@@ -250,6 +253,36 @@ func runJSONTamper(f lib.Flags, res *lib.Result) {
 			}
 			old := format == "pre0132"
 			res.Hit("json-fixture-" + format)
+			if v, perr := core.ParseBlockVersion(probe.Version); old && perr == nil && !v.LessThan(semver011) {
+				// real blocks of the Pedersen format: version lowered below 0.11.0 + a calldata element changed
+				if bm, ok := jb.(map[string]any); ok {
+					if txs, ok := bm["transactions"].([]any); ok {
+						for ti, t := range txs {
+							tm, ok := t.(map[string]any)
+							cd, ok2 := tm["calldata"].([]any)
+							if !ok || !ok2 || len(cd) == 0 {
+								continue
+							}
+							leaf, _ := mutateLeaf(cd[0])
+							tb := setPath(jb, []any{"transactions", ti, "calldata", 0}, leaf)
+							_, errSame := offerJSON(tb, jsu)
+							tb = setPath(tb, []any{"starknet_version"}, "0.10.0")
+							_, errDown := offerJSON(tb, jsu)
+							res.Case(fmt.Sprintf("json-downgrade/%s/%s", name, base), true)
+							res.Hit("tamper-json-downgrade")
+							if errSame == nil {
+								res.Violate(lib.Violation{Sig: "tampered-json-field-accepted:block.transactions[].calldata[]",
+									What: fmt.Sprintf("fixture %s/%s: calldata of transaction %d changed and the block still verifies", name, base, ti), Replay: map[string]any{"fixture": name + "/" + base, "tx": ti}})
+							} else if errDown == nil {
+								res.Violate(lib.Violation{Sig: downgradeSig,
+									What:   fmt.Sprintf("%s — real-network fixture %s/%s (%s): starknet_version set to \"0.10.0\" and calldata[0] of transaction %d changed; decodes, adapts and passes SanityCheckNewHeight", downgradeWhat, name, base, probe.Version, ti),
+									Replay: map[string]any{"fixture": name + "/" + base, "tx": ti, "seed": f.Seed, "tier": f.Tier}})
+							}
+							break
+						}
+					}
+				}
+			}
 			var sites []jsonSite
 			jsonSites(jb, nil, "block", &sites)
 			nBlockSites := len(sites)
@@ -273,6 +306,12 @@ func runJSONTamper(f lib.Flags, res *lib.Result) {
 					res.Hit("json-rejected-at-" + stage)
 					if stage == "panic" {
 						res.Hit("json-rejected-by-panic:" + s.norm)
+						rp := map[string]any{"fixture": name + "/" + base, "path": s.path, "old": s.old, "new": leaf, "seed": f.Seed, "tier": f.Tier}
+						if (s.norm == "block.starknet_version" || strings.HasSuffix(s.norm, ">.version")) && strings.Contains(err.Error(), "nil pointer dereference") {
+							res.Violate(lib.Violation{Sig: panicSig, What: fmt.Sprintf("%s (fixture %s/%s: JSON field %v changed from %v to %v: %v)", panicWhat, name, base, s.path, s.old, leaf, err), Replay: rp})
+						} else {
+							res.Violate(lib.Violation{Sig: "store-panics:json:" + s.norm, What: fmt.Sprintf("fixture %s/%s: JSON field %v changed from %v to %v: SanityCheckNewHeight panics: %v", name, base, s.path, s.old, leaf, err), Replay: rp})
+						}
 					}
 				case old:
 					res.Hit("json-old-format-accepted:" + s.norm)
